@@ -266,8 +266,9 @@ class RawModel(Model):
         self.hyps = []
         self.fsize, self.farr = self.file_field("self.fh", "fh")
         self.sector_offset = self.int_field("self.sector_offset")
+        self.start = self.int_field("self.start_sector")  # sector in the file where the extent's data begins (FLAT offset field)
         self.globals["SECTOR_SIZE"] = IntV(z3.IntVal(512))
-        self.hyps += [self.sector_offset >= 0, self.fsize >= 0]
+        self.hyps += [self.sector_offset >= 0, self.fsize >= 0, self.start >= 0]
 
 
 def _raw_read_sectors():
@@ -276,8 +277,8 @@ def _raw_read_sectors():
     def post(eng, st, rv):
         m = eng.model
         r = ret_bytes(rv)
-        rel = (sector0 - m.sector_offset) * 512
-        # SPEC: a flat extent is the file itself: Guest(x) == file[x]
+        rel = (sector0 - m.sector_offset + m.start) * 512
+        # SPEC: a flat extent is the file's bytes from its declared start offset: Guest(x) == file[start*512 + x]
         return [("len", z3.Implies(rel + count0 * 512 <= m.fsize, r.n == count0 * 512)),
                 ("content", forall_k(r.n, lambda k: r.at(k) == z3.Select(m.farr, rel + k))), ("cost", st.ghost["io"] <= 512 * count0)]
 
@@ -499,6 +500,87 @@ def _lookup_grain(sesparse, repo="/repo"):
                       note="SE-sparse entry decoding with 64-bit masks as constant-operand rewrites; cluster numbers above 2^32 are the default domain (mathematical integers)")
 
 
+# ------------------------------------------------------------------------------------------------ grain table lookup
+class TableModel(Model):
+    def __init__(self, sesparse):
+        super().__init__()
+        self.hyps = []
+        self.sesparse = sesparse
+        self.fsize, self.farr = self.file_field("self.fh", "fh")
+        self.fields["self.is_sesparse"] = BoolV(z3.BoolVal(sesparse))
+        self.gts = self.int_field("self._grain_table_size")  # entries per grain table
+        self.obj_field("self.header")
+        self.gt_sectors = self.int_field("self.header.grain_table_size", 0, U64, self.hyps)  # SE-sparse: table size in sectors
+        self.gto = self.int_field("self.header.grain_tables_offset", 0, U64, self.hyps)
+        self.obj_field("self._grain_directory")
+        self.obj_field("self._grain_entry_type")
+        self.GD = z3.Function("GD", I, I)
+        self.ngd = z3.Int("len(self._grain_directory)")
+        self.items["self._grain_directory"] = self.gd_item
+        self.items["self._grain_entry_type"] = self.array_type
+        self.globals["SECTOR_SIZE"] = IntV(z3.IntVal(512))
+        self.width = 8 if sesparse else 4
+        self.reads = []  # (position, entries) of table reads
+        self._k = 0
+        self.hyps += [self.gts >= 0, self.ngd >= 0, z3.ForAll([T], z3.And(self.GD(T) >= 0, self.GD(T) <= (U64 if sesparse else U32)))]
+        if sesparse:
+            self.hyps.append(self.gts * 8 == self.gt_sectors * 512)  # class invariant of SparseDisk.__init__
+
+    def gd_item(self, eng, st, idx, node):
+        i = eng.as_int(idx, st, node)
+        eng.pre(st, i >= 0, node)
+        eng.may_raise("IndexError", st, i < self.ngd, node)
+        return IntV(self.GD(i))
+
+    def array_type(self, eng, st, idx, node):
+        n = eng.as_int(idx, st, node)
+        self._k += 1
+        p = f"arraytype!{self._k}"
+        self.methods[(p, "__call__")] = lambda eng, st, args, node, n=n: self.read_array(eng, st, n, args, node)
+        from pyvc.engine import BoundMethod
+
+        return BoundMethod(ObjV(p), "__call__")
+
+    def read_array(self, eng, st, n, args, node):
+        # assumed cstruct contract: T[n](fh) reads n*len(T) bytes at the current position (EOFError on short data)
+        fv = args[0]
+        pos = eng.file_pos(st, fv.name)
+        eng.may_raise("EOFError", st, pos + n * self.width <= self.fsize, node)
+        st.filepos[fv.name] = pos + n * self.width
+        st.ghost["io"] = st.ghost.get("io", z3.IntVal(0)) + n * self.width
+        self._k += 1
+        p = f"table!{self._k}"
+        self.reads.append((p, pos, n))
+        self.truthy[p] = n > 0
+        return ObjV(p)
+
+
+def _lookup_grain_table(sesparse):
+    d0 = z3.Int("directory0")
+
+    def post(eng, st, rv):
+        m = eng.model
+        e = m.GD(d0)
+        if sesparse:
+            # SPEC (QEMU vmdk.c): a directory entry is valid iff its top 32 bits are 0x10000000; the low 32 bits index the table
+            valid = z3.And(e != 0, e / (1 << 32) == 0x10000000)
+            idx = e % (1 << 32)
+            want_pos = (m.gto + idx * m.gt_sectors) * 512
+        else:
+            valid = e != 0
+            want_pos = e * 512
+        if isinstance(rv, NoneV):
+            return [("none_iff_invalid", z3.Not(valid))]
+        pos, n = next((p, n) for (path, p, n) in m.reads if path == rv.path)
+        return [("none_iff_invalid", valid), ("table_position", pos == want_pos), ("table_entries", n == m.gts), ("cost", st.ghost["io"] <= m.gts * m.width)]
+
+    return FnContract(FILE, "SparseDisk._lookup_grain_table", ["C02", "C13"], lambda: TableModel(sesparse),
+                      params=lambda m: {"self": ObjV("self"), "directory": IntV(d0)},
+                      requires=lambda m: m.hyps + [d0 >= 0, d0 < m.ngd], post=post, raises={"EOFError": None},
+                      case="sesparse" if sesparse else "hosted/cowd",
+                      note="grain directory entry -> grain table position (SE-sparse: 0x10000000 tag, table index * table size in sectors)")
+
+
 replay = make_replay("vmdk")
 bounded = make_bounded("vmdk", "vmdk.small_scope", quick_specs=40, thorough_specs=300)
 
@@ -510,6 +592,8 @@ def trusted(pid):
 
 def contracts(repo):
     return [_get_runs("functional"), _read_sectors(repo), _raw_read_sectors(), _vmdk_read_sectors(), _vmdk_read(), _get_runs("termination"),
-            _lookup_grain(False, repo), _lookup_grain(True, repo)]
+            _lookup_grain(False, repo), _lookup_grain(True, repo), _lookup_grain_table(False), _lookup_grain_table(True)]
+
+
 
 
